@@ -126,7 +126,7 @@ def main():
             rc, out2, _ = sh(f"git apply -3 {os.path.join(seed, 'patch.diff')}", wt)
             out += "\n[git apply -3] " + out2
             if rc != 0:
-                sh("git checkout -- . ", wt)
+                sh("git reset -q --hard HEAD", wt)
                 for alt in sorted(os.listdir(seed)):
                     if alt.startswith("patch_rebased") and alt.endswith(".diff"):
                         rc, out3, _ = sh(f"git apply {os.path.join(seed, alt)}", wt)
